@@ -21,7 +21,9 @@ Definition sws_of (files : list (list N * block)) : sws := map (fun x => (fst x,
 
 Inductive answer := ALocs (l : list floc) | ASkip.
 
-(* the name a position request is about (GetVarStruct); None = the server answers nothing *)
+(* the name a position request is about (GetVarStruct); None = the server answers nothing.  docend_empty = the handler
+   gives up at offset >= len(contents): hover never did; definition / references / highlight / rename did before
+   fixes/C05-doc-end.diff (the `_fx` handlers of Proofs/ResolveFixes.v keep that variant), now they pass false *)
 Definition request_name (bs : list N) (line0 col : N) (docend_empty : bool) : option (option (list N)) :=
   match offset_of bs line0 col 0 with
   | None => None
@@ -57,7 +59,7 @@ Section OneQuery.
     | None => ASkip
     | Some ps =>
       let w := mws_of ps in
-      match ws_file w f, request_name (bytes_of f) line0 col true with
+      match ws_file w f, request_name (bytes_of f) line0 col false with
       | Some fi, Some (Some s) =>
         match define_at w f fi s (zl line0) (Z.of_N col) with Some l => ALocs l | None => ASkip end
       | Some _, Some None => ALocs []
@@ -70,7 +72,7 @@ Section OneQuery.
     | None => ASkip
     | Some ps =>
       let w := mws_of ps in
-      match ws_file w f, request_name (bytes_of f) line0 col true with
+      match ws_file w f, request_name (bytes_of f) line0 col false with
       | Some fi, Some (Some s) =>
         match references_at mode w f fi s (zl line0) (Z.of_N col) with Some l => ALocs l | None => ASkip end
       | Some _, Some None => ALocs []
